@@ -36,6 +36,8 @@ pub mod c06;
 pub mod c07;
 #[cfg(feature = "c08")]
 pub mod c08;
+#[cfg(feature = "c10")]
+pub mod c10;
 #[cfg(feature = "c11")]
 pub mod c11;
 #[cfg(feature = "c13")]
@@ -68,6 +70,8 @@ pub fn registry() -> Vec<(&'static str, fn(&mut src::Tape))> {
     v.extend_from_slice(c07::ALL);
     #[cfg(feature = "c08")]
     v.extend_from_slice(c08::ALL);
+    #[cfg(feature = "c10")]
+    v.extend_from_slice(c10::ALL);
     #[cfg(feature = "c11")]
     v.extend_from_slice(c11::ALL);
     #[cfg(feature = "c13")]
